@@ -9,7 +9,7 @@
 //! stays the complete account of who owns what.
 
 use std::cell::RefCell;
-use std::ops::{Add, AddAssign, Mul, Neg};
+use std::ops::*;
 
 use vek::num_traits::{MulAdd, One, Zero};
 
@@ -112,11 +112,11 @@ fn set_last_kept(id: u32) {
 
 const NO: (u32, u32) = (NONE, 0);
 
-macro_rules! leaf_arith {
-    ($T:ty) => {
-        impl Add<$T> for $T {
+macro_rules! leaf_binop {
+    ($T:ty, $($Tr:ident $m:ident),+) => {$(
+        impl $Tr<$T> for $T {
             type Output = $T;
-            fn add(self, rhs: $T) -> $T {
+            fn $m(self, rhs: $T) -> $T {
                 let kl = keep_last();
                 hit([(self.id, self.val), (rhs.id, rhs.val), NO], 0, if kl { rhs.id } else { self.id });
                 if kl {
@@ -126,6 +126,34 @@ macro_rules! leaf_arith {
                     drop(rhs);
                     self
                 }
+            }
+        }
+    )+};
+}
+macro_rules! leaf_assign {
+    ($T:ty, $($Tr:ident $m:ident),+) => {$(
+        impl $Tr<$T> for $T {
+            fn $m(&mut self, mut rhs: $T) {
+                let kl = keep_last();
+                hit([(self.id, self.val), (rhs.id, rhs.val), NO], 0, if kl { rhs.id } else { self.id });
+                if kl {
+                    std::mem::swap(self, &mut rhs);
+                }
+                drop(rhs);
+            }
+        }
+    )+};
+}
+
+macro_rules! leaf_arith {
+    ($T:ty) => {
+        leaf_binop!($T, Add add, Sub sub, Mul mul, Div div, Rem rem, BitAnd bitand, BitOr bitor, BitXor bitxor, Shl shl, Shr shr);
+        leaf_assign!($T, AddAssign add_assign, SubAssign sub_assign, MulAssign mul_assign, DivAssign div_assign, RemAssign rem_assign, BitAndAssign bitand_assign, BitOrAssign bitor_assign, BitXorAssign bitxor_assign, ShlAssign shl_assign, ShrAssign shr_assign);
+        impl Not for $T {
+            type Output = $T;
+            fn not(self) -> $T {
+                hit([(self.id, self.val), NO, NO], 0, self.id);
+                self
             }
         }
         impl<'a> Add<&'a $T> for $T {
@@ -150,30 +178,6 @@ macro_rules! leaf_arith {
                 let out = <$T>::made_by_operator(self.val);
                 set_last_kept(out.id);
                 out
-            }
-        }
-        impl Mul<$T> for $T {
-            type Output = $T;
-            fn mul(self, rhs: $T) -> $T {
-                let kl = keep_last();
-                hit([(self.id, self.val), (rhs.id, rhs.val), NO], 0, if kl { rhs.id } else { self.id });
-                if kl {
-                    drop(self);
-                    rhs
-                } else {
-                    drop(rhs);
-                    self
-                }
-            }
-        }
-        impl AddAssign<$T> for $T {
-            fn add_assign(&mut self, mut rhs: $T) {
-                let kl = keep_last();
-                hit([(self.id, self.val), (rhs.id, rhs.val), NO], 0, if kl { rhs.id } else { self.id });
-                if kl {
-                    std::mem::swap(self, &mut rhs);
-                }
-                drop(rhs);
             }
         }
         impl Neg for $T {
